@@ -47,7 +47,10 @@ def _check_uuid(uuid_str, spec_version, interoperability):
 
     uuid_obj = uuid.UUID(uuid_str)
 
-    ok = uuid_obj.variant == uuid.RFC_4122
+    # uuid.UUID() also reads braces, "urn:uuid:" prefixes and missing hyphens;
+    # a STIX identifier carries the plain 8-4-4-4-12 form only.
+    ok = uuid_obj.variant == uuid.RFC_4122 and \
+        str(uuid_obj) == uuid_str.lower()
     if ok and spec_version == "2.0":
         ok = uuid_obj.version == 4
 
